@@ -47,7 +47,7 @@ func main() {
 	}
 	var err error
 	if *genPath != "" {
-		err = genLean(repo, *genPath)
+		err = genLean(repo, *genPath, c.OutDir)
 	} else {
 		err = runC20(c)
 	}
